@@ -22,6 +22,10 @@ VERIF = os.path.dirname(os.path.dirname(os.path.abspath(__file__)))
 CONTRACTS = {}     # id -> Contract
 
 
+class HarnessError(BaseException):
+    """bug in a contract harness (not in the code under contract): checker error, never a violation"""
+
+
 class Contract:
     def __init__(self, prop, cid, fn, targets, level, structures, doc, max_paths, native_samples):
         self.prop, self.id, self.fn, self.targets, self.level = prop, cid, fn, targets, level
@@ -95,10 +99,22 @@ class Harness:
 
     # calling the real code
     def call(self, relfile, qualname, *args, **kwargs):
-        return self.I.call(relfile, qualname, *args, **kwargs)
+        try:
+            return self.I.call(relfile, qualname, *args, **kwargs)
+        except _INTERNAL:
+            raise
+        except Exception as e:
+            e._from_target = True     # raised by the code under contract (not by the harness itself)
+            raise
 
     def getattr(self, obj, name):
-        return self.I.getattr(obj, name)
+        try:
+            return self.I.getattr(obj, name)
+        except _INTERNAL:
+            raise
+        except Exception as e:
+            e._from_target = True
+            raise
 
     def raises(self, fn, *exc):
         """run fn(); return the exception instance if it raised one of exc (default: any Exception) else None"""
@@ -245,9 +261,35 @@ def snapshot(x, depth=6):
 # ---------------------------------------------------------------------------------------------------------------------
 # running one (contract, structure) task
 
+_ABORT = [False]
+
+
 def run_task(cid, st, tier="quick", timeout_ms=20000, both=False, seed=0):
     c = CONTRACTS[cid]
     t0 = time.time()
+    obls = []
+    notes = []
+    touched = {}
+    paths = 0
+    ended = 0
+    solver_calls = 0
+    solver_time = 0.0
+    import signal
+
+    def _alarm(sig, frm):
+        _ABORT[0] = True
+        raise PathLimit("task time limit")
+    _ABORT[0] = False
+    limit = int(os.environ.get("TVERIF_TASK_LIMIT", "120" if tier == "quick" else "900"))
+    signal.signal(signal.SIGALRM, _alarm)
+    signal.alarm(limit)
+    try:
+        return _run_task(c, cid, st, tier, timeout_ms, both, seed, t0)
+    finally:
+        signal.alarm(0)
+
+
+def _run_task(c, cid, st, tier, timeout_ms, both, seed, t0):
     obls = []
     notes = []
     touched = {}
@@ -279,9 +321,9 @@ def run_task(cid, st, tier="quick", timeout_ms=20000, both=False, seed=0):
                 except _INTERNAL:
                     raise
                 except Exception as e:
+                    if not getattr(e, "_from_target", False):
+                        raise HarnessError(f"{type(e).__name__}: {e}\n{traceback.format_exc()}")
                     # an exception the contract does not allow: failed implicit safety obligation
-                    tb = traceback.extract_tb(e.__traceback__)
-                    where = ""
                     m = None
                     try:
                         m = ctx.feasible_model()
@@ -289,6 +331,9 @@ def run_task(cid, st, tier="quick", timeout_ms=20000, both=False, seed=0):
                         pass
                     ctx.obligations.append(Obligation(f"{cid}::no-unexpected-exception", "failed", "path", 0.0,
                                                       f"{type(e).__name__}: {e}", m if m is not None else {}, "".join("T" if d else "F" for d in ctx.trace), "safety"))
+            if _ABORT[0]:
+                obls.extend(o.to_json() for o in ctx.obligations)
+                break
             for f in ctx.forks:
                 work.append(tuple(f))
             obls.extend(o.to_json() for o in ctx.obligations)
@@ -334,14 +379,11 @@ def replay_one(cid, st, values, obligation_name):
                 c.fn(h, st)
         except Infeasible:
             err = "precondition not met by these values"
-        except KeyError as e:
-            if str(e).strip("'") in ("",) :
-                raise
-            err = f"KeyError {e}"
-            failed.append({"name": f"{cid}::no-unexpected-exception", "detail": f"KeyError: {e}"})
         except _INTERNAL as e:
             err = f"{type(e).__name__}: {e}"
         except Exception as e:
+            if not getattr(e, "_from_target", False):
+                raise HarnessError(f"{type(e).__name__}: {e}\n{traceback.format_exc()}")
             failed.append({"name": f"{cid}::no-unexpected-exception", "detail": f"{type(e).__name__}: {e}"})
     for o in ctx.obligations:
         if o.status == "failed":
